@@ -693,7 +693,7 @@ Qed.
 
 (* the witness: the response (122 + 3000 bytes) is larger than the room of the
    send buffer (100), the client has stalled, the timeout (5) passes *)
-Definition p_f21 : params := mkParams 100 5 2 1 0 100.
+Definition p_f21 : params := mkParams 100 5 2 1 0 100 16777216.
 Definition s_f21 : state :=
   run p_f21 (init 1 1000 1000)
     [EConnect 0; EPoll; ESend 1000 (TComplete false); EPoll; EStalls 1000;
@@ -746,7 +746,7 @@ Proof. intros es H. eapply stalled_never_closed; [exact f21_stalled|exact H]. Qe
 (* ------------------------------------------------------------------------- *)
 (* the hypotheses of the positive theorems are satisfiable: an idle keep-alive
    connection that has been served, its client still reading, is reaped *)
-Definition p_ok : params := mkParams 100 5 2 1 0 65536.
+Definition p_ok : params := mkParams 100 5 2 1 0 65536 16777216.
 Definition s_ok : state :=
   run p_ok (init 2 1000 1000)
     [EConnect 1; EPoll; ESend 1000 (TComplete false); EPoll; EAppFinish 1000 [122%N; 40%N]; EPoll; EAdvance 6].
